@@ -23,7 +23,7 @@ of `memdb.go` over `kvData`/`nodeData`) instead of the ideal skip list; same ans
 indexes out of range.  Array-only commands (what the ideal model cannot answer):
 
 ```
-mem arr state             ⇒ n=<n> size=<kvSize> mh=<maxHeight> kv=<len(kvData)>:<fnv> nodes=<len(nodeData)>:<fnv> prev=<fnv>
+mem arr state             ⇒ n=<n> size=<kvSize> mh=<maxHeight> gen=<gen> kv=<len(kvData)>:<fnv> nodes=<len(nodeData)>:<fnv> prev=<fnv>
 mem arr iter <id> node    ⇒ <node index of the iterator>
 ```
 (`fnv` = FNV-1a/64 over the elements, each taken mod 2^64, 16 hex digits)
@@ -34,7 +34,8 @@ open GoLevel GoLevel.MemDB
 structure MemState where
   cmp : Cmp := bytesCompare
   db : DB := {}
-  its : List (Nat × Iter) := []
+  gen : Nat := 0
+  its : List (Nat × GIter) := []
   acmp : Cmp := bytesCompare
   arr : MemArr.DB := MemArr.DB.new
   aits : List (Nat × MemArr.Iter) := []
@@ -67,7 +68,7 @@ def hex16 (x : UInt64) : String :=
   String.ofList (List.replicate (16 - s.length) '0') ++ s
 
 def memArrState (p : MemArr.DB) : String :=
-  s!"n={p.n} size={p.kvSize} mh={p.maxHeight} kv={p.kvData.size}:{hex16 (fnvNats (p.kvData.map (·.toNat)))} " ++
+  s!"n={p.n} size={p.kvSize} mh={p.maxHeight} gen={p.gen} kv={p.kvData.size}:{hex16 (fnvNats (p.kvData.map (·.toNat)))} " ++
   s!"nodes={p.nodeData.size}:{hex16 (fnvNats p.nodeData)} prev={hex16 (fnvNats p.prevNode.toArray)}"
 
 /-- the `mem arr …` commands: the array-level model -/
@@ -128,7 +129,7 @@ def handleMem (st : MemState) : List String → Option (MemState × String)
   | "arr" :: rest => handleMemArr st rest
   | ["new", c] => do
       let cmp ← memCmpById c
-      pure ({ st with cmp := cmp, db := {}, its := [] }, "ok")
+      pure ({ st with cmp := cmp, db := {}, gen := 0, its := [] }, "ok")
   | ["put", k, v, h] => do
       let k ← fromHex k; let v ← fromHex v; let h ← h.toNat?
       pure ({ st with db := put st.cmp st.db k v h }, "ok")
@@ -149,19 +150,19 @@ def handleMem (st : MemState) : List String → Option (MemState × String)
   | ["len"] => pure (st, toString st.db.n)
   | ["size"] => pure (st, toString st.db.kvSize)
   | ["used"] => pure (st, toString st.db.used)
-  | ["reset"] => pure ({ st with db := reset st.db }, "ok")
+  | ["reset"] => pure ({ st with db := reset st.db, gen := st.gen + 1 }, "ok")
   | "iter" :: id :: rest => do
       let id ← id.toNat?
       match rest with
       | ["new", s, l] => do
           let s ← memOptHex s; let l ← memOptHex l
-          pure ({ st with its := (id, { start := s, limit := l }) :: st.its.filter (·.1 != id) }, "ok")
+          pure ({ st with its := (id, { it := { start := s, limit := l } }) :: st.its.filter (·.1 != id) }, "ok")
       | ["rel"] => pure ({ st with its := st.its.filter (·.1 != id) }, "ok")
       | mv => do
-          let it ← st.its.lookup id
+          let x ← st.its.lookup id
           let cl ← memCall mv
-          let it' := Iter.step st.cmp st.db cl it
-          pure ({ st with its := (id, it') :: st.its.filter (·.1 != id) }, memShowOut (it'.out st.db))
+          let x' := GIter.step st.cmp st.db st.gen cl x
+          pure ({ st with its := (id, x') :: st.its.filter (·.1 != id) }, memShowOut (x'.it.out st.db))
   | _ => none
 
 end GoLevel.Driver
